@@ -1,0 +1,72 @@
+//go:build verif
+
+package muxer
+
+// Contracts for /verif (contract-based deductive verification). Comment-only.
+
+// The deferred clean-up of the read loop (closes and unregisters every receiver; nested map ranges
+// with deletion) is outside the verified kernel: nothing is promised, the heap is forgotten.
+//@ func (m *Muxer) readLoop$1()
+//@   nobody
+
+// C09 / C17: routing of one received segment. A segment is handed to a receiver only if its payload
+// length is not zero; the receiver is the one registered for the segment's protocol number (or, when
+// there is none, for the catch-all number) and for the role that the segment's direction addresses -
+// requests go to the responder, responses to the initiator; an initiator-only muxer never delivers a
+// request and a responder-only muxer never delivers a response.
+//@ func (m *Muxer) readLoop()
+//@   props C09 C17
+//@   attr safe off
+//@   attr trackcalls on
+//@   requires nonnil: m != nil
+//@   callback send:ch requires nonempty: arg0 != nil && arg0.SegmentHeader.PayloadLength != 0
+//@   callback send:ch requires role: protocolRole == ite(arg0.SegmentHeader.ProtocolId & 32768 == 0, ProtocolRole(2), ProtocolRole(1)) && recvChan != nil &&
+//@       recvChan == protocolRoles[protocolRole]
+//@   callback send:ch requires registered: ite(arg0.SegmentHeader.ProtocolId >= 32768, arg0.SegmentHeader.ProtocolId - 32768, arg0.SegmentHeader.ProtocolId) in m.protocolReceivers ||
+//@       43981 in m.protocolReceivers
+//@   callback send:ch requires initiatorOnly: !(gf(&m.diffusionMode, atomicval) == 1 && arg0.SegmentHeader.ProtocolId & 32768 == 0)
+//@   callback send:ch requires responderOnly: !(gf(&m.diffusionMode, atomicval) == 2 && arg0.SegmentHeader.ProtocolId & 32768 != 0)
+//@   loop 0 invariant true
+
+// C09: a segment is built only for a payload of at most 65535 bytes; its header carries exactly that
+// length, the payload is the very slice handed in, and the protocol number field is the number with
+// bit 15 set for a response and clear for a request - so that, for a protocol number below 0x8000,
+// the accessors recover the number and the direction.
+//@ func NewSegment(protocolId, payload, isResponse) (r)
+//@   props C09
+//@   ensures bound: r != nil <==> len(payload) <= 65535
+//@   ensures header: r != nil ==> int(r.SegmentHeader.PayloadLength) == len(payload) && r.Payload == payload &&
+//@       r.SegmentHeader.ProtocolId == ite(isResponse, protocolId + 32768, protocolId)
+//@   ensures inverse: r != nil && protocolId < 32768 ==>
+//@       ite(r.SegmentHeader.ProtocolId >= 32768, r.SegmentHeader.ProtocolId - 32768, r.SegmentHeader.ProtocolId) == protocolId &&
+//@       ((r.SegmentHeader.ProtocolId & 32768 != 0) <==> isResponse)
+//@ func (s *SegmentHeader) GetProtocolId() (r)
+//@   props C09
+//@   pure
+//@   ensures def: r == ite(s.ProtocolId >= 32768, s.ProtocolId - 32768, s.ProtocolId)
+//@ func (s *SegmentHeader) IsResponse() (r)
+//@   props C09
+//@   pure
+//@   ensures def: r <==> s.ProtocolId & 32768 != 0
+//@ func (s *SegmentHeader) IsRequest() (r)
+//@   props C09
+//@   pure
+//@   ensures def: r <==> s.ProtocolId & 32768 == 0
+
+// C09: one segment goes out as one write of one buffer, taken while holding the send lock: the
+// buffer received this segment's header through binary.Write, then this segment's payload, and the
+// bytes handed to the connection are that buffer's bytes (never the header and the payload in
+// separate writes, which concurrent senders could interleave).
+//@ func (m *Muxer) Send(msg) (err)
+//@   props C09
+//@   attr trackcalls on
+//@   attr safe off
+//@   requires nonnil: m != nil && msg != nil
+//@   token locked acquire call:(*Mutex).Lock consume call:Conn.Write
+//@   ensures onewrite: err == nil ==> called(Conn.Write) && called("(*Buffer).Bytes") && callarg(Conn.Write, 0) == callres("(*Buffer).Bytes")
+//@   callback call:binary.Write requires header: dyn(arg2) == type(SegmentHeader) &&
+//@       unbox(arg2, type(SegmentHeader)).ProtocolId == msg.SegmentHeader.ProtocolId &&
+//@       unbox(arg2, type(SegmentHeader)).PayloadLength == msg.SegmentHeader.PayloadLength &&
+//@       unbox(arg2, type(SegmentHeader)).Timestamp == msg.SegmentHeader.Timestamp
+//@   callback call:(*Buffer).Write requires payload: arg1 == msg.Payload && called("binary.Write") && callres("binary.Write") == nil
+//@   ensures assembled: err == nil ==> called("binary.Write") && called("(*Buffer).Write")
